@@ -17,6 +17,7 @@ import (
 	"reflect"
 	"sort"
 	"strings"
+	"time"
 
 	"golang.org/x/tools/go/packages"
 
@@ -48,6 +49,42 @@ func loadSynth() (*packages.Package, error) {
 	return &packages.Package{ID: synthPath, PkgPath: synthPath, Name: "synth", Fset: fset, Syntax: []*ast.File{f}, Types: pkg, TypesInfo: info}, nil
 }
 
+// synthOpts: target options of the functions of the corpus that need some.
+var synthOpts = map[string]Target{
+	"fill":      {NonNil: true},
+	"listPages": {Oracle: true, Callback: "fn"},
+	"newRec":    {Oracle: true, FreshResults: true},
+}
+
+// synthOracles: the Coq terms of the oracles a corpus function depends on (in
+// the order of their Variables), computed by running the real Go oracle on the
+// arguments of the case.
+var synthOracles = map[string]func(g *gen, args []reflect.Value) []string{
+	"UsePages": func(g *gen, args []reflect.Value) []string {
+		pages, ferr := synth.PagesOf(int(args[0].Int()))
+		var ps []string
+		for _, p := range pages {
+			ps = append(ps, CStrList(p))
+		}
+		e := "None"
+		if ferr != nil {
+			e = "(Some (Err \"errors\" " + CStr(ferr.Error()) + " []))"
+		}
+		return []string{"(fun _ => ((" + CList(ps) + " : list (list string)), " + e + "))"}
+	},
+	"OwnedPtr":       newRecOracle,
+	"OwnedPtrPanics": newRecOracle,
+}
+
+func newRecOracle(g *gen, args []reflect.Value) []string {
+	r, err := synth.NewRec(args[0].String())
+	e := "None"
+	if err != nil {
+		e = "(Some (Err \"errors\" " + CStr(err.Error()) + " []))"
+	}
+	return []string{"(fun _ => (" + g.coqValue(reflect.ValueOf(r), nil) + ", " + e + "))"}
+}
+
 // synthGen translates the whole corpus as property T00.
 func synthGen() (*gen, error) {
 	p, err := loadSynth()
@@ -56,7 +93,7 @@ func synthGen() (*gen, error) {
 	}
 	L := &loader{repo: "/", pkgs: map[string]*packages.Package{synthPath: p}, funcs: map[string]*funcDecl{}, vars: map[string]*varDecl{},
 		mutated: map[string]bool{}, scanned: map[string]bool{}}
-	var table []Target
+	table := []Target{{Pkg: synthPath, Type: "Finder", Nilable: true}}
 	for _, d := range p.Syntax[0].Decls {
 		fd, ok := d.(*ast.FuncDecl)
 		if !ok {
@@ -71,14 +108,98 @@ func synthGen() (*gen, error) {
 				name = rt.(*ast.Ident).Name + "." + name
 			}
 		}
-		table = append(table, Target{Pkg: synthPath, Func: name})
+		t := synthOpts[name]
+		t.Pkg, t.Func = synthPath, name
+		table = append(table, t)
 	}
 	return runGoLiteProp(L, "T00", table), nil
 }
 
 // ---------- reflection: values as Coq terms ----------
 
+// dynName mirrors golite_types.dynTypeName for a reflect.Type.
+func dynName(t reflect.Type) string {
+	if t.PkgPath() != "" && t.Name() != "" {
+		return t.PkgPath() + "." + t.Name()
+	}
+	switch t.Kind() {
+	case reflect.Slice:
+		return "[]" + dynName(t.Elem())
+	case reflect.Map:
+		return "map[" + dynName(t.Key()) + "]" + dynName(t.Elem())
+	case reflect.Struct:
+		return t.String()
+	}
+	return t.String()
+}
+
+var synthIDs = map[string]int{}
+
+// anyValue prints a Go value held in an interface as an anyv.
+func anyValue(v reflect.Value) string {
+	if !v.IsValid() {
+		return "ANil"
+	}
+	t := v.Type()
+	switch t.Kind() {
+	case reflect.String:
+		return "(AStr " + CStr(dynName(t)) + " " + CStr(v.String()) + ")"
+	case reflect.Int, reflect.Int64, reflect.Int32:
+		return "(AInt " + CStr(dynName(t)) + " " + CZ(v.Int()) + ")"
+	case reflect.Bool:
+		return "(ABool " + CStr(dynName(t)) + " " + CBool(v.Bool()) + ")"
+	}
+	key := fmt.Sprintf("%s|%#v", dynName(t), v.Interface())
+	id, ok := synthIDs[key]
+	if !ok {
+		id = len(synthIDs) + 1
+		synthIDs[key] = id
+	}
+	if t.Comparable() {
+		return "(AOther " + CStr(dynName(t)) + " " + CZ(int64(id)) + ")"
+	}
+	return "(AUncmp " + CStr(dynName(t)) + " " + CZ(int64(id)) + ")"
+}
+
 func (g *gen) coqValue(v reflect.Value, r *Rng) string {
+	if v.IsValid() && g.opaquePrint != nil {
+		if pr := g.opaquePrint[v.Type().String()]; pr != nil {
+			t, _ := pr(v)
+			return t
+		}
+	}
+	if v.Kind() == reflect.Interface && v.Type().NumMethod() == 0 {
+		if v.IsNil() {
+			return "ANil"
+		}
+		return anyValue(v.Elem())
+	}
+	if v.IsValid() && v.Type() == errorType {
+		if v.IsNil() {
+			return "None"
+		}
+		return "(Some (Err \"fmt\" " + CStr(v.Interface().(error).Error()) + " []))"
+	}
+	if v.IsValid() && v.Type().String() == "time.Time" {
+		tm := v.Interface().(time.Time)
+		if tm.IsZero() {
+			return "time_zero"
+		}
+		return CZ(tm.UnixNano())
+	}
+	if !v.IsValid() {
+		return "ANil"
+	}
+	if v.Kind() == reflect.Interface && v.Type().Name() == "Finder" {
+		if v.IsNil() {
+			return "PNil"
+		}
+		v = v.Elem()
+	}
+	if mf, ok := v.Interface().(synth.MapFinder); ok {
+		return "(PNew (fun k => match map_get String.eqb k " + g.coqValue(reflect.ValueOf(map[string]string(mf)), r) +
+			" with Some v => (v, true) | None => (\"\", false) end))"
+	}
 	if mg, ok := v.Interface().(synth.MapGetter); ok {
 		return "(fun k => match map_get String.eqb k " + g.coqValue(reflect.ValueOf(map[string]string(mg)), r) +
 			" with Some v => (v, None) | None => (\"\", Some (Err \"errors\" \"missing\" [])) end)"
@@ -90,6 +211,8 @@ func (g *gen) coqValue(v reflect.Value, r *Rng) string {
 		return CBool(v.Bool())
 	case reflect.Int, reflect.Int64, reflect.Int32:
 		return CZ(v.Int())
+	case reflect.Uint8:
+		return CZ(int64(v.Uint()))
 	case reflect.Slice:
 		items := make([]string, v.Len())
 		for i := range items {
@@ -108,8 +231,8 @@ func (g *gen) coqValue(v reflect.Value, r *Rng) string {
 		}
 		return "(" + CList(items) + " : " + g.coqType(v.Type()) + ")"
 	case reflect.Struct:
-		rec := g.synthRecord(v.Type().Name())
-		args := []string{rec.ctor}
+		rec := g.recordOf(v.Type())
+		args := append([]string{rec.ctor}, g.sectionInst(rec.ctor)...)
 		for _, f := range rec.fields {
 			args = append(args, g.coqValue(v.FieldByName(f.goName), r))
 		}
@@ -124,21 +247,41 @@ func (g *gen) coqValue(v reflect.Value, r *Rng) string {
 }
 
 func (g *gen) coqType(t reflect.Type) string {
+	if t.String() == "time.Time" {
+		return "Z"
+	}
+	if g.opaquePrint != nil {
+		if pr := g.opaquePrint[t.String()]; pr != nil {
+			_, ty := pr(reflect.Zero(t))
+			return ty
+		}
+	}
 	switch t.Kind() {
 	case reflect.String:
 		return "string"
 	case reflect.Bool:
 		return "bool"
-	case reflect.Int, reflect.Int64, reflect.Int32:
+	case reflect.Int, reflect.Int64, reflect.Int32, reflect.Uint8:
 		return "Z"
 	case reflect.Slice:
 		return "list " + g.coqTypeP(t.Elem())
 	case reflect.Map:
 		return "list (" + g.coqTypeP(t.Key()) + " * " + g.coqTypeP(t.Elem()) + ")"
 	case reflect.Struct:
-		return g.synthRecord(t.Name()).name
+		rn := g.recordOf(t).name
+		if inst := g.sectionInst(rn); len(inst) > 0 {
+			return "(" + rn + " " + strings.Join(inst, " ") + ")"
+		}
+		return rn
 	case reflect.Ptr:
 		return "ptr " + g.coqTypeP(t.Elem())
+	case reflect.Interface:
+		if t.NumMethod() == 0 {
+			return "anyv"
+		}
+		if t == errorType {
+			return "option err"
+		}
 	}
 	panic("synth: type of kind " + t.Kind().String())
 }
@@ -151,12 +294,104 @@ func (g *gen) coqTypeP(t reflect.Type) string {
 	return s
 }
 
-func (g *gen) synthRecord(name string) *recInfo {
-	r := recCache[g]["type:"+synthPath+"."+name]
+// recordOf finds the generated Record of a Go struct type.
+func (g *gen) recordOf(t reflect.Type) *recInfo {
+	r := recCache[g]["type:"+t.PkgPath()+"."+t.Name()]
 	if r == nil {
-		panic("synth: record " + name + " was not generated")
+		panic("selftest: record " + t.PkgPath() + "." + t.Name() + " was not generated")
 	}
 	return r
+}
+
+// sectionVars maps a generated global name to the Section Variables it
+// (transitively) depends on, in order of declaration: after the Section is
+// closed these are its leading arguments.
+func (g *gen) sectionVars(name string) []string {
+	if g.secDeps == nil {
+		g.secDeps = map[string][]string{}
+		var vars []string
+		isVar := map[string]bool{}
+		defs := map[string]string{} // global name -> text of the item that defines it
+		for _, it := range g.items {
+			if it.status != "ok" {
+				continue
+			}
+			if it.kind == "oracle" {
+				vars = append(vars, it.name)
+				isVar[it.name] = true
+			}
+			for n, owner := range g.names {
+				_ = owner
+				if strings.Contains(it.text, n) {
+					if _, seen := defs[n]; !seen && definesName(it.text, n) {
+						defs[n] = it.text
+					}
+				}
+			}
+		}
+		g.secVarOrder = vars
+		memo := map[string]map[string]bool{}
+		var deps func(n string) map[string]bool
+		deps = func(n string) map[string]bool {
+			if m, ok := memo[n]; ok {
+				return m
+			}
+			m := map[string]bool{}
+			memo[n] = m
+			if isVar[n] {
+				m[n] = true
+			}
+			text, ok := defs[n]
+			if !ok {
+				return m
+			}
+			for _, tok := range coqIdents(text) {
+				if tok == n {
+					continue
+				}
+				if _, global := g.names[tok]; global {
+					for d := range deps(tok) {
+						m[d] = true
+					}
+				}
+			}
+			return m
+		}
+		for n := range g.names {
+			d := deps(n)
+			var out []string
+			for _, v := range vars {
+				if d[v] {
+					out = append(out, v)
+				}
+			}
+			g.secDeps[n] = out
+		}
+	}
+	return g.secDeps[name]
+}
+
+// definesName: the item text defines the global n (Definition / Fixpoint / Record / Variable / constructor / field).
+func definesName(text, n string) bool {
+	for _, kw := range []string{"Definition " + n + " ", "Fixpoint " + n + " ", "Record " + n + " ", "Variable " + n + " ", "Inductive " + n + " ", ":= " + n + " {", ":= " + n + ".", "  " + n + " : "} {
+		if strings.Contains(text, kw) {
+			return true
+		}
+	}
+	return false
+}
+
+// sectionInst: the instantiation of the Section Variables name depends on.
+func (g *gen) sectionInst(name string) []string {
+	var out []string
+	for _, v := range g.sectionVars(name) {
+		inst, ok := g.secInst[v]
+		if !ok {
+			panic("selftest: no instantiation for Section variable " + v + " needed by " + name)
+		}
+		out = append(out, inst)
+	}
+	return out
 }
 
 var errorType = reflect.TypeOf((*error)(nil)).Elem()
@@ -170,6 +405,9 @@ func (g *gen) eqCheck(x string, v reflect.Value, t reflect.Type) string {
 		}
 		return "(err_matches " + x + " " + CSome(CStr(v.Interface().(error).Error())) + ")"
 	}
+	if t.Kind() == reflect.Interface && t.NumMethod() == 0 {
+		return "(anyv_same " + x + " " + g.coqValue(v, nil) + ")"
+	}
 	switch t.Kind() {
 	case reflect.String:
 		return "(String.eqb " + x + " " + g.coqValue(v, nil) + ")"
@@ -181,13 +419,26 @@ func (g *gen) eqCheck(x string, v reflect.Value, t reflect.Type) string {
 		if t.Elem().Kind() == reflect.String {
 			return "(list_eqb String.eqb " + x + " " + g.coqValue(v, nil) + ")"
 		}
-		if t.Elem().Kind() == reflect.Int {
+		if t.Elem().Kind() == reflect.Int || t.Elem().Kind() == reflect.Uint8 {
 			return "(list_eqb Z.eqb " + x + " " + g.coqValue(v, nil) + ")"
 		}
 	}
 	switch t.Kind() {
+	case reflect.Slice:
+		// any other element type: the same length, element by element
+		var pats, cs []string
+		for i := 0; i < v.Len(); i++ {
+			e := fmt.Sprintf("%s_%d", strings.ReplaceAll(strings.Trim(x, "()"), " ", "_"), i)
+			e = coqIdent(e)
+			pats = append(pats, e)
+			cs = append(cs, g.eqCheck(e, v.Index(i), t.Elem()))
+		}
+		if len(cs) == 0 {
+			return "(match " + x + " with [] => true | _ => false end)"
+		}
+		return "(match " + x + " with [" + strings.Join(pats, "; ") + "] => " + strings.Join(cs, " && ") + " | _ => false end)"
 	case reflect.Struct:
-		rec := g.synthRecord(t.Name())
+		rec := g.recordOf(t)
 		var cs []string
 		for _, f := range rec.fields {
 			sf, _ := t.FieldByName(f.goName)
@@ -217,9 +468,28 @@ func (g *gen) eqCheck(x string, v reflect.Value, t reflect.Type) string {
 // ---------- inputs ----------
 
 var synthStrings = []string{"", "a", "b", "ab", "abc", "a:b", " a b ", "stop", "skip", "c", "err", "gone", "x", "al", "be", "bca", "a:bc"}
-var synthInts = []int{-7, -3, -1, 0, 1, 2, 3, 4, 5, 9}
+var synthInts = []int{-7, -3, -1, 0, 1, 2, 3, 4, 5, 6, 7, 8, 9, 10}
 
 func synthArg(t reflect.Type, r *Rng) reflect.Value {
+	if t.Kind() == reflect.Interface && t.NumMethod() == 0 {
+		pool := []any{nil, "a", "", "b", 3, 0, int64(3), true, false, synth.Label("a"), synth.Label(""), struct{ A int }{1}, struct{ A int }{2},
+			synth.Rec{Name: "r"}, []int{1}, []int{2}, map[string]int{}, int32(3)}
+		v := pool[r.Intn(len(pool))]
+		if v == nil {
+			return reflect.Zero(t)
+		}
+		return reflect.ValueOf(v)
+	}
+	if t.Kind() == reflect.Interface && t.Name() == "Finder" {
+		if r.Intn(3) == 0 {
+			return reflect.Zero(t)
+		}
+		m := synth.MapFinder{}
+		for i := r.Intn(4); i > 0; i-- {
+			m[Pick(r, synthStrings)] = Pick(r, synthStrings)
+		}
+		return reflect.ValueOf(m)
+	}
 	if t.Kind() == reflect.Interface && t.Name() == "Getter" {
 		m := synth.MapGetter{}
 		for i := r.Intn(4); i > 0; i-- {
@@ -307,49 +577,86 @@ func selftestSynth(r *Rng) (*gen, *stFile) {
 		}
 		for k := 0; k < ncases; k++ {
 			args := make([]reflect.Value, ft.NumIn())
-			terms := []string{fi.name}
 			for i := range args {
 				args[i] = synthArg(ft.In(i), r)
-				terms = append(terms, g.coqValue(args[i], r))
 			}
-			var outs []reflect.Value
-			panicked := func() (p bool) {
-				defer func() {
-					if recover() != nil {
-						p = true
-					}
-				}()
-				outs = fv.Call(args)
-				return false
-			}()
-			app := "(" + strings.Join(terms, " ") + ")"
-			if len(terms) == 1 {
-				app = fi.name
+			var lead []string
+			if mk := synthOracles[n]; mk != nil {
+				lead = mk(g, args)
 			}
-			if panicked {
-				if fi.partial {
-					f.add("(match " + app + " with None => true | Some _ => false end)")
-				} else {
-					f.add("false (* synth." + n + " panicked but its translation is total *)")
-				}
-				continue
-			}
-			var pats, checks []string
-			for i, o := range outs {
-				v := fmt.Sprintf("r%d", i)
-				pats = append(pats, v)
-				checks = append(checks, g.eqCheck(v, o, ft.Out(i)))
-			}
-			body := "let '(" + strings.Join(pats, ", ") + ") := res in " + strings.Join(checks, " && ")
-			if len(outs) == 1 {
-				body = "let r0 := res in " + checks[0]
-			}
-			if fi.partial {
-				f.add("(match " + app + " with Some res => " + body + " | None => false end)")
-			} else {
-				f.add("(let res := " + app + " in " + body + ")")
-			}
+			g.emitReflectCase(f, "synth."+n, fi, fv, args, lead, r)
 		}
 	}
 	return g, f
+}
+
+// emitReflectCase calls the real function fv on args (panics recovered) and
+// adds the check that the translation fi, applied to the same arguments, gives
+// the same results. lead = the instantiations of the Section Variables the
+// translation depends on. Dropped parameters are not printed; a NonNil pointer
+// parameter is printed as its pointee (a nil argument skips the case).
+func (g *gen) emitReflectCase(f *stFile, label string, fi *fnInfo, fv reflect.Value, args []reflect.Value, lead []string, r *Rng) {
+	ft := fv.Type()
+	terms := append([]string{fi.name}, lead...)
+	for i := range args {
+		var pi *paramInfo
+		if i < len(fi.params) {
+			pi = &fi.params[i]
+		}
+		if pi != nil && pi.dropped {
+			continue
+		}
+		if pi != nil && pi.asValue {
+			if args[i].Kind() == reflect.Ptr && args[i].IsNil() {
+				return
+			}
+			terms = append(terms, g.coqValue(args[i].Elem(), r))
+			continue
+		}
+		if ft.In(i).Kind() == reflect.Interface && ft.In(i).NumMethod() == 0 && args[i].Kind() != reflect.Interface {
+			terms = append(terms, anyValue(args[i]))
+			continue
+		}
+		terms = append(terms, g.coqValue(args[i], r))
+	}
+	var outs []reflect.Value
+	panicked := func() (p bool) {
+		defer func() {
+			if recover() != nil {
+				p = true
+			}
+		}()
+		outs = fv.Call(args)
+		return false
+	}()
+	app := "(" + strings.Join(terms, " ") + ")"
+	if len(terms) == 1 {
+		app = fi.name
+	}
+	if panicked {
+		if fi.partial {
+			f.add("(match " + app + " with None => true | Some _ => false end)")
+		} else {
+			f.add("false (* " + label + " panicked but its translation is total *)")
+		}
+		return
+	}
+	var pats, checks []string
+	for i, o := range outs {
+		v := fmt.Sprintf("r%d", i)
+		pats = append(pats, v)
+		checks = append(checks, g.eqCheck(v, o, ft.Out(i)))
+	}
+	body := "let '(" + strings.Join(pats, ", ") + ") := res in " + strings.Join(checks, " && ")
+	if len(outs) == 1 {
+		body = "let r0 := res in " + checks[0]
+	}
+	if len(outs) == 0 {
+		body = "true"
+	}
+	if fi.partial {
+		f.add("(match " + app + " with Some res => " + body + " | None => false end)")
+	} else {
+		f.add("(let res := " + app + " in " + body + ")")
+	}
 }
